@@ -17,6 +17,9 @@ THEOREMS = ['Otel.C12.' + t for t in (
     'decision_depends_only_on_id_and_ratio', 'participants_agree', 'sample_antitone_in_id',
     'isSampled_iff_bit0', 'parentBased_valid_parent', 'parentBased_valid_parent_no_consult', 'parentBased_root_delegates',
     'parentBased_root_consults', 'alwaysOn_constant', 'alwaysOff_constant',
+    # spans started through a Tracer (the sampling part of Tracer::StartSpan)
+    'effectiveParent_valid', 'effectiveParent_invalid', 'span_parentBased_valid_parent', 'span_root_delegates',
+    'span_participants_agree', 'span_alwaysOn_sampled', 'span_alwaysOff_not_sampled',
     'gen_constants')]
 HARNESSES = [Harness('s_c12', ['harness/s_c12.cc'], sdk_srcs=sdk_sources('common', 'resource', 'version', 'trace'),
                      includes=SDK_INCLUDES)]
@@ -25,7 +28,11 @@ RULE = ('ratio cases: 2-6 ratios (raw IEEE bit patterns: +-0, subnormals, 2^-k, 
         'neighbours, 1-2^-53, 1, >1, <0, +-inf, random) x 12-40 trace ids (random, first 8 bytes all-zero / all-one / around '
         '2^64-2^10, prefixes within +-2^13 of each threshold); every decision asked 4 times with parent/name/kind/attributes/links '
         'varied; threshold_ read through the private member and compared bit for bit. sample cases: sampler trees '
-        '(pb/pb/leaf, leaf = on|off|ratio|custom) x parents (none, invalid ids, valid remote/local, all 256 flag bytes, trace states). '
+        '(pb/pb/leaf, leaf = on|off|ratio|custom; built through the constructors or the sampler factories) x parents (none, invalid '
+        'ids, valid remote/local, all 256 flag bytes, trace states). span cases: the same trees as the sampler of a real TracerProvider '
+        'with a fixed id generator; a span is started with the parent supplied as options.parent SpanContext / options.parent Context / '
+        'active span / active span overridden by an is_root_span context, and its sampled flag, recording state, trace state and trace id '
+        'are observed, beside the decision of an equal sampler asked directly about that trace id. '
         'non-trivial = some ratio strictly inside (0,1) with a threshold other than 0 / 2^64-1, or a parent-based sampler; '
         'distinct = distinct case line')
 TRUSTED = ['binary64 arithmetic of the build (SSE2, round-to-nearest, no FMA contraction, little-endian memcpy) is what `fl`/`leNat` formalise; '
@@ -178,6 +185,18 @@ def sample_case(rng, tags, flags=None, depth=None):
     return Case(f'sm sample {spec} {rand_parent(rng, flags)} {tid.hex()}', H, tags)
 
 
+HOWS = 'cxar'   # the parent as options.parent SpanContext / options.parent Context / active span / active span + explicit root
+
+
+def span_case(rng, tags, flags=None, depth=None, how=None):
+    d = rng.choice([0, 0, 1, 1, 1, 2, 3]) if depth is None else depth
+    spec = 'pb/' * d + rand_leaf(rng)
+    tid = bytes(rng.randrange(256) for _ in range(16))
+    if rng.random() < 0.06:
+        tid = rng.choice([bytes(16), b'\xff' * 16])
+    return Case(f'sm span {spec} {rand_parent(rng, flags)} {tid.hex()} {how or rng.choice(HOWS)}', H, tags)
+
+
 def corpus():
     out = []
     z = bytes(16).hex(); ones = (b'\xff' * 16).hex(); half = ((2 ** 63).to_bytes(8, 'little') + bytes(8)).hex()
@@ -193,6 +212,23 @@ def corpus():
             out.append(Case(f'sm sample pb/on {p}/{f}/{rem}/- {ones}', H, ('corpus', 'pb-valid-parent'), 'corpus'))
     out.append(Case(f'sm sample pb/custom=2=6b:76 none {ones}', H, ('corpus', 'pb-root'), 'corpus'))
     out.append(Case(f'sm sample pb/custom=0=null {bytes(16).hex()}/0102030405060708/01/1/61:62 {ones}', H, ('corpus', 'pb-root'), 'corpus'))
+    # spans through a Tracer: every way of supplying the parent x sampled / unsampled valid parent, invalid parent, none
+    for how in HOWS:
+        for f in ('00', '01', 'fe', 'ff'):
+            out.append(Case(f'sm span pb/custom=1=6b:76 {p}/{f}/1/61:62,63:64 {ones} {how}', H, ('corpus', 'span-pb'), 'corpus'))
+            out.append(Case(f'sm span pb/pb/off {p}/{f}/0/- {z} {how}', H, ('corpus', 'span-pb'), 'corpus'))
+        out.append(Case(f'sm span pb/on none {half} {how}', H, ('corpus', 'span-root'), 'corpus'))
+        out.append(Case(f'sm span pb/custom=2=null {bytes(16).hex()}/0102030405060708/01/1/61:62 {ones} {how}', H, ('corpus', 'span-root'), 'corpus'))
+        out.append(Case(f'sm span custom=1=- {p}/01/0/61:62 {ones} {how}', H, ('corpus', 'span-record-only'), 'corpus'))
+        out.append(Case(f'sm span off {p}/01/0/61:62 {ones} {how}', H, ('corpus', 'span-off-under-sampled-parent'), 'corpus'))
+        # ratio 1/2: trace id prefix 0 is sampled, prefix 2^64-1 is not - as a root (generated id) and as a child (parent's id)
+        out.append(Case(f'sm span ratio=3fe0000000000000 none {z} {how}', H, ('corpus', 'span-ratio'), 'corpus'))
+        out.append(Case(f'sm span ratio=3fe0000000000000 none {ones} {how}', H, ('corpus', 'span-ratio'), 'corpus'))
+        out.append(Case(f'sm span ratio=3fe0000000000000 {"f" * 32}/0102030405060708/01/0/- {z} {how}', H, ('corpus', 'span-ratio'), 'corpus'))
+        out.append(Case(f'sm span pb/ratio=3fe0000000000000 {"f" * 32}/0102030405060708/01/0/- {z} {how}', H, ('corpus', 'span-ratio'), 'corpus'))
+    out.append(Case(f'sm span ratio=7ff8000000000000 none {z} c', H, ('corpus', 'nan'), 'corpus'))
+    for bad in (f'sm span on none {z}', f'sm span on none {z} q', f'sm span pb none {z} c', f'sm span on none 00 c', f'sm span on x/y {z} a'):
+        out.append(Case(bad, H, ('corpus', 'malformed'), 'corpus'))
     return out
 
 
@@ -222,6 +258,10 @@ def generate(rng, tier):
         out.append(sample_case(rng, ('sample', 'all-flags'), flags=f, depth=rng.choice([1, 1, 2])))
     for _ in range(40000 if big else 4000):
         out.append(sample_case(rng, ('sample', 'mixed')))
+    for f in range(256):   # all flag bytes of the parent of a span under a parent-based tracer, every way of supplying it
+        out.append(span_case(rng, ('span', 'all-flags'), flags=f, depth=rng.choice([1, 1, 2]), how=HOWS[f % 4]))
+    for _ in range(20000 if big else 1800):
+        out.append(span_case(rng, ('span', 'mixed')))
     return out
 
 
@@ -342,6 +382,46 @@ def oracle(case, out):
         if calls != e_calls:
             return ('root-sampler-consulted-exactly-once-for-a-root-span', f'calls={calls}')
         return None
+    if t[1] == 'span':
+        wellformed = len(t) == 6 and t[5] in HOWS and t[3].count('/') in (0, 4) and len(t[4]) == 32 and t[2].split('/')[-1] != 'pb'
+        if out == 'bad-op':
+            return None if not wellformed or 'ratio=7ff' in t[2] or 'ratio=fff' in t[2] else ('bad-case', out)
+        m = re.fullmatch(r'dec=(\d) ts=(\S+) calls=(\d+) tid=([0-9a-f]{32}|-) sdec=(\d)', out)
+        if not m:
+            return ('span-observation-well-formed', out[:200])
+        dec, ts, calls, tid, sdec = int(m.group(1)), m.group(2), int(m.group(3)), m.group(4), int(m.group(5))
+        parts = t[2].split('/')
+        how = t[5]
+        # an explicit root has no parent, whatever span is active; a parent that is not valid is no parent
+        parent = None if how == 'r' else parse_parent(t[3])
+        want_tid = t[3].split('/')[0] if parent is not None else t[4]
+        if tid != want_tid:
+            return ('span-joins-its-valid-parents-trace-else-a-new-one', f'trace id {tid} want {want_tid}')
+        # every participant asked about this trace id says the same: the flag on the span is the sampler's decision
+        if (dec == 2) != (sdec == 2):
+            return ('span-sampled-flag-is-the-samplers-decision-for-its-trace-id', f'span dec {dec}, sampler asked directly {sdec}')
+        e_dec, e_ts, e_calls = spec_sample(parts, parent)
+        pb = len(parts) > 1
+        if pb and parent is not None:
+            if dec != e_dec:
+                return ('parent-based-decision-is-the-parents-sampled-bit', f'{how}: flags {parent["flags"]:02x} remote {parent["remote"]} -> dec {dec}')
+            if ts != e_ts:
+                return ('parent-based-trace-state-is-the-parents', f'{how}: got {ts} want {e_ts}')
+            if calls != 0:
+                return ('root-sampler-consulted-only-without-valid-parent', f'{how}: calls={calls}')
+            return None
+        if e_dec is not None and dec != e_dec:
+            clause = 'always-on-off-constant' if parts[-1] in ('on', 'off') else 'root-span-gets-the-root-samplers-result' if pb else (
+                'ratio-end-points' if parts[-1].startswith('ratio') else 'span-flag-and-recording-follow-the-samplers-decision')
+            return (clause, f'{how}: dec {dec} want {e_dec}')
+        if e_ts is not None:
+            # the sampler's trace state when it gives one, else the valid parent's, else none
+            want = e_ts if e_ts != 'null' else (parent['ts'] if parent is not None else '[]')
+            if ts != want:
+                return ('span-trace-state-is-the-samplers-else-the-valid-parents', f'{how}: ts {ts} want {want}')
+        if calls != e_calls:
+            return ('root-sampler-consulted-exactly-once-for-a-root-span', f'{how}: calls={calls}')
+        return None
     return ('bad-case', out)
 
 
@@ -355,6 +435,8 @@ def nontrivial(case, out):
         return False
     if t[1] == 'ratio':
         return any(o is not None and 0 < o[0] < U64 - 1 for o in parse_ratio_out(out))
+    if t[1] == 'span':
+        return t[2].startswith('pb/') or ('ratio=' in t[2] and 'sdec=' in out)
     return t[2].startswith('pb/')
 
 
@@ -364,7 +446,9 @@ LEVEL_TEXT = ('Lean 4 theorems over an executable model of trace_id_ratio.cc / p
               'fixes integers below 2^53, then for `fl`, for which both facts are proved), no 64-bit wrap-around, sampled at r1 => sampled '
               'at every r2 >= r1, ratio <= 0 never / >= 1 always, decision a function of the first 8 trace-id bytes and the ratio only, '
               'parent-based = parent\'s sampled bit and trace state (remote or local, any flags byte) with the root sampler consulted '
-              'exactly for spans without a valid parent, on/off constant. The constants of CalculateThreshold are re-extracted from the '
+              'exactly for spans without a valid parent, on/off constant; the same at the level of spans started through a Tracer '
+              '(sampleSpan: effective parent by the way it is supplied, flag = IsSampled of the one result, trace state the sampler\'s else the '
+              'valid parent\'s: span_parentBased_valid_parent, span_root_delegates, span_participants_agree). The constants of CalculateThreshold are re-extracted from the '
               'source each run; the model is tied to the code by a bit-for-bit comparison of threshold_ and of decisions on generated '
               'ratio bit patterns x trace ids under ASan/UBSan.')
 LEVEL_NOTE = ('Trusted: Lean kernel; axioms propext/Quot.sound/Classical.choice at most; tools/gen_c12.py; harness, generators; that the '
